@@ -4,7 +4,7 @@
 (* machine: every property is an invariant over the history (documents      *)
 (* added) and the accumulated tree after each stage.                        *)
 (***************************************************************************)
-EXTENDS AyBuild, Props_C02, Props_C03, Props_C04, Props_C05, Props_C08, Props_C14, Props_C15
+EXTENDS AyBuild, Props_C02, Props_C03, Props_C04, Props_C05, Props_C08, Props_C14, Props_C15, Props_C16
 
 HistDocs  == [i \in 1..Len(hist) |-> hist[i].sd]
 HistSafes == [i \in 1..Len(hist) |-> hist[i].safe]
@@ -43,6 +43,9 @@ Inv_C14_Survivors == Check("Inv_C14_Survivors", phase = "constructed" => C14_Sur
 C14_Witness == phase = "constructed" /\ Len(hist) >= 2 /\ built.status = "RequiredError" /\ Len(built.paths) >= 2
 
 Inv_C15 == Check("Inv_C15", Terminal => C15_ModelLaws(HistDocs, acc))
+
+Inv_C16 == Check("Inv_C16", C16_Holds(HistDocs, accs))
+C16_Witness == phase = "constructed" /\ C16_Judged(HistDocs, accs)
 
 \* behaviours for replay: one JSON line per terminal state
 Emit == Terminal => PrintT(ToJson([h |-> [i \in 1..Len(hist) |-> hist[i].i],
